@@ -1,10 +1,100 @@
-(* C02 — Referenced sector data stays retrievable and intact.  Statements only. *)
+(* C02 — Referenced sector data stays retrievable and intact.   PARTIAL.
+   Statements only; every proof is [exact lemma].
+
+   Model: coq/Storage/DataModel.v (host/storage/storage.go + volume.go over the store model
+   Model.v), one step per store call / file operation group of the volume manager; writers are
+   threads whose DReserve / DWrite steps interleave freely with every other step; [DCrash] may
+   occur anywhere and any number of times; the cache has any size and is resized at will.
+
+   PARTIAL because (1) file-system durability is an assumption of the model (data is readable
+   once written and survives a crash once fsynced; torn sector writes and real power loss are
+   not exhibited), SHA-256/Merkle roots are abstracted to content identity; and (2) the full
+   statement is FALSE of the code (see the two _refuted theorems, known findings): what the RPC
+   handlers rely on — "Write returned nil, then Sync, then commit the reference" — does not
+   guarantee that the sector's bytes are on disk, because Store.StoreSector answers "exists" for
+   any root that has a slot, also when the slot's data was never (durably) written.
+
+       Full statement (not provable):  forall run r, the run follows the handlers' discipline and
+       contains no RemoveSector / forced removal  ->  r referenced  ->  ReadSector r = bytes of r
+       (now and after a crash at this point).
+
+   What holds (c02_readable_partial) replaces the discipline by what it is meant to establish:
+   every store call that adds a reference adds it for a sector that is durably written at that
+   moment ([step_ok], clause DMeta).  Under that hypothesis every referenced sector reads back
+   the bytes hashing to its root in every reachable state and after a crash at any point, across
+   prune, grow, shrink and non-forced removal with migration, interleaved writers of equal or
+   different sectors, any cache size, restarts.  The other two clauses of [step_ok]: no explicit
+   RemoveSector / forced removal (the permitted losses: c02_lost_counted), and a freshly
+   reserved slot does not already hold the very bytes of the new sector (stale copy of a pruned
+   sector; without it a migration could move the slot under the writer).
+   The cache is modelled as root -> bytes: callers do not modify buffers obtained from
+   ReadSector or passed to Write (RHP2/RHP3 update-sector as patched by
+   fixes/C02-update-sector-copy.patch). *)
 From HostdBase Require Import Base.
-From HostdStorage Require Import Model DataModel.
+From HostdStorage Require Import Model Lemmas Proofs Proofs2 DataModel DataLemmas DataProofs DataProofs2.
 
-Theorem c02_stub : forall d, fst (dstep d DSync) = dsync d.
-Proof. exact (fun d => eq_refl). Qed.
-Print Assumptions c02_stub.
+(* what VolumeManager.ReadSector returns *)
+Theorem c02_read_result_is_ReadSector : forall d r,
+  snd (dstep d (DRead r false)) =
+  match read_result d r with
+  | Some c => ORead (is_some (cget r (cache d))) c
+  | None => OReadErr
+  end.
+Proof. exact dread_result. Qed.
+Print Assumptions c02_read_result_is_ReadSector.
 
-Example c02_nonvacuous : csize (dinit 3) = 3%N.
-Proof. vm_compute; reflexivity. Qed.
+(* Every referenced sector reads back its own bytes, in every reachable state and after a crash
+   in that state (the run itself may contain crashes and restarts anywhere). *)
+Theorem c02_readable_partial : forall (size : N) (l : list dop) (r : N),
+  steps_ok (dinit size) l ->
+  refd (md (druns (dinit size) l)) r = true ->
+  read_result (druns (dinit size) l) r = Some r /\
+  read_result (dcrash (druns (dinit size) l)) r = Some r.
+Proof. exact readable_runs. Qed.
+Print Assumptions c02_readable_partial.
+
+(* Only RemoveSector and forced removal can break it: every other step keeps "referenced =>
+   durably written" (and the rest of the invariant) ... *)
+Theorem c02_only_permitted_losses_partial : forall d o,
+  dinv d -> step_ok d o -> dinv (fst (dstep d o)).
+Proof. exact dinv_step. Qed.
+Print Assumptions c02_only_permitted_losses_partial.
+
+(* ... and those two raise lostSectors by exactly the number of occupied slots they destroy,
+   after any run whatsoever; no other step changes the metric. *)
+Theorem c02_lost_counted : forall (size : N) (l : list dop) o, dloss_op o = true ->
+  let d := druns (dinit size) l in
+  (mLost (mets (md (fst (dstep d o)))) - mLost (mets (md d)) =
+   occ_total (md d) - occ_total (md (fst (dstep d o))))%Z.
+Proof. exact dlost_exact_runs. Qed.
+Print Assumptions c02_lost_counted.
+
+Theorem c02_lost_unchanged_otherwise : forall d o, dloss_op o = false ->
+  mLost (mets (md (fst (dstep d o)))) = mLost (mets (md d)).
+Proof. exact dlost_unchanged. Qed.
+Print Assumptions c02_lost_unchanged_otherwise.
+
+(* The full statement is refuted without any crash: a second uploader is told "exists" while the
+   first writer still holds the slot, syncs, commits its reference; the first writer's data write
+   then fails and its rollback releases the slot. *)
+Theorem c02_acknowledged_readable_refuted : exists size l r,
+  forallb calm l = true /\ disciplined (dtrace (dinit size) l) = true /\
+  refd (md (druns (dinit size) l)) r = true /\ read_result (druns (dinit size) l) r <> Some r.
+Proof. exact readable_refuted_no_crash. Qed.
+Print Assumptions c02_acknowledged_readable_refuted.
+
+(* ... and with a crash between slot commit and data write: the slot survives without data and
+   the re-upload after the restart is told "exists". *)
+Theorem c02_crash_readable_refuted : exists size l r,
+  forallb no_loss l = true /\ disciplined (dtrace (dinit size) l) = true /\
+  refd (md (druns (dinit size) l)) r = true /\ read_result (druns (dinit size) l) r <> Some r.
+Proof. exact readable_refuted_crash. Qed.
+Print Assumptions c02_crash_readable_refuted.
+
+(* non-vacuity: a run that meets the hypotheses, commits a reference, migrates the sector during
+   a shrink, crashes, and reads it back *)
+Example c02_nonvacuous :
+  steps_ok (dinit 1) demo /\ refd (md (druns (dinit 1) demo)) 7 = true /\
+  slot_at (md (druns (dinit 1) demo)) 2 0 = Some (Some 7%N) /\
+  read_result (druns (dinit 1) demo) 7 = Some 7%N.
+Proof. exact demo_nonvacuous. Qed.
